@@ -18,6 +18,15 @@ from .models import OPT, RES, deref, opt_cases
 UNIT = TupleV(())
 
 
+def _store(I, st, ref, v, t):
+    """a model writing through a reference: recorded like a MIR store (rules look at the stores into the row)"""
+    try:
+        I.on_store(st, ref.cell, ref.proj, v, t)
+    except Exception:
+        pass
+    I.set_path(st, ref.cell, ref.proj, v)
+
+
 # --------------------------------------------------------------------------- helpers
 
 def _is_line_item(e):
@@ -1195,7 +1204,7 @@ def m_opt_take(I, st, c, args, body, t):
     a = args[0]
     o = deref(I, st, a)
     if isinstance(a, RefV):
-        I.set_path(st, a.cell, a.proj, EnumV.none())
+        _store(I, st, a, EnumV.none(), t)
     return st, o if isinstance(o, EnumV) else opt_cases(I, st, o)
 
 
@@ -1203,10 +1212,43 @@ def m_opt_replace(I, st, c, args, body, t):
     a = args[0]
     o = deref(I, st, a)
     if isinstance(a, RefV):
-        I.set_path(st, a.cell, a.proj, EnumV.some(args[1]))
+        _store(I, st, a, EnumV.some(args[1]), t)
     if c.get("name") == "insert":
         return st, RefV(a.cell, a.proj + (("downcast", "Some"), ("field", 0)), True) if isinstance(a, RefV) else Top(why="insert")
     return st, o if isinstance(o, EnumV) else opt_cases(I, st, o)
+
+
+def m_get_or_insert(I, st, c, args, body, t):
+    """Option::get_or_insert(v) / get_or_insert_with(f): writes only when the option is None; -> &mut payload"""
+    a = args[0]
+    o = opt_cases(I, st, a)
+    nm = c.get("name")
+    if not isinstance(a, RefV):
+        return st, Top(why=nm)
+    ret = RefV(a.cell, a.proj + (("variant", "Some"), ("field", 0)), True)
+    if not o.may("None"):
+        return st, ret
+    out = []
+    if o.may("Some"):
+        out.append((st.copy(), o.payload("Some")))
+    s1 = st.copy()
+    try:
+        if nm == "get_or_insert":
+            nv = args[1]
+        else:
+            s1, nv = I.call_value(s1, args[1], [])
+        out.append((s1, nv))
+    except Diverge:
+        pass
+    st2, j = M.join_results(I, out)
+    if o.may("Some"):
+        gd = frozenset(o.variants["Some"][1].get("deps", ())) | frozenset(o.variants["None"][1].get("deps", ())) | deps_of(o.payload("Some"))
+        if isinstance(j, IntV):
+            j = IntV(j.ty, j.bits, j.lo, j.hi, j.aff, j.deps | gd, None, None, j.vset)
+        elif isinstance(j, StrV):
+            j = StrV("opaque", deps=deps_of(j) | gd)
+    _store(I, st2, a, EnumV.some(j), t)
+    return st2, ret
 
 
 def m_opt_copied(I, st, c, args, body, t):
@@ -1269,7 +1311,7 @@ def m_mem_take(I, st, c, args, body, t):
             d = BoolV(False)
         elif isinstance(v, FloatV):
             d = FloatV(0.0, 0.0, ty=v.ty)
-        I.set_path(st, a.cell, a.proj, d if d is not None else Top(why="Default::default()"))
+        _store(I, st, a, d if d is not None else Top(why="Default::default()"), t)
     return st, v
 
 
@@ -1277,7 +1319,7 @@ def m_mem_replace(I, st, c, args, body, t):
     a = args[0]
     v = deref(I, st, a)
     if isinstance(a, RefV):
-        I.set_path(st, a.cell, a.proj, args[1])
+        _store(I, st, a, args[1], t)
     return st, v
 
 
@@ -1377,6 +1419,8 @@ def install(models):
     E[o + "take"] = m_opt_take
     E[o + "replace"] = m_opt_replace
     E[o + "insert"] = m_opt_replace
+    E[o + "get_or_insert"] = m_get_or_insert
+    E[o + "get_or_insert_with"] = m_get_or_insert
     E[o + "flatten"] = m_opt_flatten
     E[o + "as_mut"] = M.m_as_ref
     E[o + "as_deref"] = M.m_as_ref
